@@ -61,6 +61,7 @@ def triage(ctx, results, table, seed, max_report=10):
     for (_f, _ln, chk, e) in fails:
         by_sig.setdefault(signature(e, chk), (e, chk))
     reported = 0
+    flaky = []
     for sig, (e, chk) in sorted(by_sig.items()):
         if reported >= max_report:
             break
@@ -69,13 +70,18 @@ def triage(ctx, results, table, seed, max_report=10):
             raise vf.Infra("re-execution of %s produced no event" % sig)
         failed = fam.validate_events(ctx, evs, MODULE, "repro")
         if chk not in failed.get(0, set()):
-            raise vf.Infra("divergence %s did not reproduce (first seen: %s)" % (sig, describe(e, {chk})))
+            flaky.append("divergence %s did not reproduce (first seen: %s)" % (sig, describe(e, {chk})))
+            continue
         e2 = dict(evs[0])
         e2["want"] = e2.get("want", [])[:8]
         e2["added"] = e2.get("added", [])[:8]
         if vf.report(ctx, sig, describe(evs[0], failed[0]), {"tool": TOOL, "seed": seed, "one": json.loads(one_arg(evs[0])), "check": chk,
                                                              "table": json.load(open(table)), "event": e2}):
             reported += 1
+    if flaky:
+        ctx.notes += flaky
+        if not ctx.violations:
+            raise vf.Infra("; ".join(flaky[:3]))
 
 
 def run(ctx):
